@@ -2,17 +2,21 @@
 # Re-runs the quick check of the targeted property against every kept seeded change
 # (scratch worktrees only). usage: seeded_all.sh
 cd "$(dirname "$0")/.."
-declare -A DIR=( [C01]="priority ." [C02]="priority ." [C03]="join v2" [C04]="limit v2" [C05]="priority v2" [C06]="priority v2" [C07]="priority ." [C08]="join ." [C09]="join v2" [C10]="join v2" [C11]="join/unite v2" [C12]="limit v2" [C15]="priority v2" [C16]="priority ." [C17]="priority ." [C19]="priority ." [C20]="join ." [C01b]="priority v2" [C02b]="priority v2" [C03b]="join/unite v2" [C07b]="priority v2" [C08b]="join/unite v2" [C10b]="join/unite v2" [C16b]="join ." [C17b]="priority ." [C04c]="limit v2" [C05c]="priority ." [C06c]="priority v2" [C09c]="join/unite v2" [C11c]="join/unite v2" [C12c]="limit v2" [C15c]="priority ." [C19c]="priority v2" [C20c]="priority ." [C01d]="priority ." [C02d]="priority ." [C03d]="join ." [C07d]="priority ." [C08d]="join v2" [C09d]="join ." [C10d]="join v2" [C16d]="join ." [C17d]="priority ." [C19d]="join ." [C01c]="priority v2" [C04e]="limit v2" [C05e]="priority v2" [C06e]="priority ." [C11e]="join/unite v2" [C12e]="limit v2" [C15e]="priority v2" [C19e]="priority ." [C20e]="join v2" [C02e]="priority ." [C07e]="priority v2" [C16f]="priority ." [C17f]="priority ." [C19f]="join v2" [C20f]="priority v2" [C10f]="join ." [C03f]="join v2" [C05f]="priority ." [C01f]="priority ." [C12g]="limit v2" [C03g]="join/unite v2" [C07g]="priority ." [C06g]="priority ." [C16g]="priority ." [C02g]="priority v2" [C19g]="priority ." [C08g]="join/unite v2" [C01g]="priority v2" [C04h]="limit v2" [C09h]="join/unite v2" [C20h]="join ." [C12h]="limit v2" [C15h]="priority ." [C11h]="join/unite v2" [C10h]="join/unite v2" [C17h]="priority ." [C02i]="priority ." [C03i]="join/unite v2" [C07i]="priority v2" [C08i]="join ." [C12i]="limit v2" [C16i]="priority ." [C17i]="priority ." [C19i]="priority ." [C01j]="priority ." [C02j]="priority ." [C07j]="priority ." [C08j]="join v2" [C09j]="join ." [C10j]="join v2" [C16j]="join ." [C17j]="priority ." [C19j]="priority ." [C20j]="join ." [C01k]="priority/simple v2" [C02k]="priority/simple v2" [C07k]="priority/simple v2" [C19k]="priority/simple v2" [C20k]="priority ." [C15k]="priority v2" [C10k]="join v2" [C05k]="priority v2" [C17k]="priority ." [C09k]="join v2" [C01m]="priority ." [C04m]="limit v2" [C05m]="priority ." [C06m]="priority ." [C09m]="join/unite v2" [C10m]="join v2" [C11m]="join/unite v2" [C15m]="priority v2" [C01n]="priority ." [C02n]="priority v2" [C07n]="priority ." [C16n]="priority ." [C17n]="priority ." [C19n]="priority ." [C20n]="priority ." [C08n]="join/unite v2" [C01p]="priority ." [C03p]="join/unite v2" [C05p]="priority v2" [C09p]="join v2" [C10p]="join v2" [C12p]="limit v2" [C15p]="priority v2" [C02q]="priority ." [C09q]="join/unite v2" [C10q]="join v2" [C12q]="limit v2" [C16q]="priority ." )
-declare -A PROP=( [C19d]="C16" [C03i]="C08" )
+declare -A DIR=( [C01]="priority ." [C02]="priority ." [C03]="join v2" [C04]="limit v2" [C05]="priority v2" [C06]="priority v2" [C07]="priority ." [C08]="join ." [C09]="join v2" [C10]="join v2" [C11]="join/unite v2" [C12]="limit v2" [C15]="priority v2" [C16]="priority ." [C17]="priority ." [C19]="priority ." [C20]="join ." [C01b]="priority v2" [C02b]="priority v2" [C03b]="join/unite v2" [C07b]="priority v2" [C08b]="join/unite v2" [C10b]="join/unite v2" [C16b]="join ." [C17b]="priority ." [C04c]="limit v2" [C05c]="priority ." [C06c]="priority v2" [C09c]="join/unite v2" [C11c]="join/unite v2" [C12c]="limit v2" [C15c]="priority ." [C19c]="priority v2" [C20c]="priority ." [C01d]="priority ." [C02d]="priority ." [C03d]="join ." [C07d]="priority ." [C08d]="join v2" [C09d]="join ." [C10d]="join v2" [C16d]="join ." [C17d]="priority ." [C19d]="join ." [C01c]="priority v2" [C04e]="limit v2" [C05e]="priority v2" [C06e]="priority ." [C11e]="join/unite v2" [C12e]="limit v2" [C15e]="priority v2" [C19e]="priority ." [C20e]="join v2" [C02e]="priority ." [C07e]="priority v2" [C16f]="priority ." [C17f]="priority ." [C19f]="join v2" [C20f]="priority v2" [C10f]="join ." [C03f]="join v2" [C05f]="priority ." [C01f]="priority ." [C12g]="limit v2" [C03g]="join/unite v2" [C07g]="priority ." [C06g]="priority ." [C16g]="priority ." [C02g]="priority v2" [C19g]="priority ." [C08g]="join/unite v2" [C01g]="priority v2" [C04h]="limit v2" [C09h]="join/unite v2" [C20h]="join ." [C12h]="limit v2" [C15h]="priority ." [C11h]="join/unite v2" [C10h]="join/unite v2" [C17h]="priority ." [C02i]="priority ." [C03i]="join/unite v2" [C07i]="priority v2" [C08i]="join ." [C12i]="limit v2" [C16i]="priority ." [C17i]="priority ." [C19i]="priority ." [C01j]="priority ." [C02j]="priority ." [C07j]="priority ." [C08j]="join v2" [C09j]="join ." [C10j]="join v2" [C16j]="join ." [C17j]="priority ." [C19j]="priority ." [C20j]="join ." [C01k]="priority/simple v2" [C02k]="priority/simple v2" [C07k]="priority/simple v2" [C19k]="priority/simple v2" [C20k]="priority ." [C15k]="priority v2" [C10k]="join v2" [C05k]="priority v2" [C17k]="priority ." [C09k]="join v2" [C01m]="priority ." [C04m]="limit v2" [C05m]="priority ." [C06m]="priority ." [C09m]="join/unite v2" [C10m]="join v2" [C11m]="join/unite v2" [C15m]="priority v2" [C01n]="priority ." [C02n]="priority v2" [C07n]="priority ." [C16n]="priority ." [C17n]="priority ." [C19n]="priority ." [C20n]="priority ." [C08n]="join/unite v2" [C01p]="priority ." [C03p]="join/unite v2" [C05p]="priority v2" [C09p]="join v2" [C10p]="join v2" [C12p]="limit v2" [C15p]="priority v2" [C02q]="priority ." [C09q]="join/unite v2" [C10q]="join v2" [C12q]="limit v2" [C16q]="priority ." [C02w]="priority v2" [C03w]="join v2" [C07w]="priority ." [C08w]="join v2" [C09w]="join v2" [C11w]="join/unite v2" [C12w]="limit v2" [C15w]="priority v2" [C17w]="priority ." )
+declare -A PROP=( [C19d]="C16" [C03i]="C08" [C09w]="C03" )
+# reached by the thorough tier only (long histories, many inputs)
+declare -A TIER=( [C02w]="thorough" [C03w]="thorough" )
 fail=0
 for id in $(ls seeded | sort); do
   [ -f seeded/$id/patch.diff ] || continue
   [ "$id" = "C05g" ] && continue
   [ "$id" = "C04p" ] && continue
   [ "$id" = "C06q" ] && continue
+  [ "$id" = "C04w" ] && continue   # needs asynchronous timer channels (DESIGN 9.3)
+  [ "$id" = "C16w" ] && continue   # capped delay after seconds of idleness (DESIGN 9.3)
   set -- ${DIR[$id]:-}; [ -z "${1:-}" ] && { echo "$id: no entry"; continue; }
   prop=${PROP[$id]:-$(jq -r .breaks_property seeded/$id/meta.json)}
-  out=$(python3 selftest/seeded.py $id $1 $2 $prop --skip-confirm 2>&1 | grep "bin/check")
+  out=$(SEEDED_TIER=${TIER[$id]:-quick} python3 selftest/seeded.py $id $1 $2 $prop --skip-confirm 2>&1 | grep "bin/check")
   echo "$out"
   echo "$out" | grep -q "exit 1" || fail=1
 done
